@@ -239,6 +239,8 @@ static void on_alarm(int) {
     _exit(124);
 }
 
+void set_stats_path(const std::string &path, const std::string &engine, const std::string &worker) { g_stats = path; g_engine = engine; g_wid = worker; }
+void flush_stats(const char *result) { write_stats(result); }
 const std::string &out_dir() { return g_out; }
 const std::string &worker_id() { return g_wid; }
 long opt_cases() { return g_cases; }
